@@ -104,6 +104,8 @@ def r2(ctx):
 def r3(ctx):
     from . import c13
     ctx.sub(c13.r2)
+    # ... and the statistics phase writes them into its own copy of the state, never into a list shared with another state
+    ctx.sub(c13.r6, only=(r"input-write:cluster_maintenance\.update_all_cluster_statistics",))
 
 
 @rule("C17", "R4", "OWN", "the metric only reads the model it is given", evidence=True)
@@ -116,3 +118,4 @@ def r_readonly(ctx):
 def r5(ctx):
     from . import c12
     ctx.sub(c12.r1, only=("receiver:stacked_data_mean", "mean:rows", "return"))
+    ctx.sub(c12.r3, only=("unconditional", "range", "slot"))     # ... refreshed for every cluster, one-member clusters included
